@@ -17,10 +17,14 @@ Judge(rec) ==
         \* may this input be accepted as signed at all?
         stillValid == isSigned /\ rec.armor_start /\ rec.decodes /\ rec.canon_same /\ ringHas
         untouched == rec.in.mut.op = "none"
-        class == IF ~isSigned /\ untouched THEN "plain"
+        faulty == HasField(rec.in, "via") /\ rec.in.via = "fault"
+        \* the well-formed beginning of a signed text that goes wrong later ("good"), when the vector names one
+        goodRef == IF HasField(rec.in, "good") THEN RefRead(rec.in.good) ELSE ref
+        class == IF faulty THEN "source-fails-midway"
+                 ELSE IF ~isSigned /\ untouched THEN "plain"
                  ELSE IF rec.keyring_nil THEN "nil-keyring"
                  ELSE IF ~rec.armor_start THEN "armor-not-at-start"
-                 ELSE IF untouched /\ ringHas THEN "positive"
+                 ELSE IF untouched /\ ringHas THEN (IF ref.wf THEN "positive" ELSE "signed-text-malformed")
                  ELSE IF stillValid /\ rec.sigpkt_same THEN "canon-preserving-edit"
                  ELSE IF stillValid THEN "signature-bytes-changed"
                  ELSE "must-fail"
@@ -31,8 +35,8 @@ Judge(rec) ==
           <<(~rec.keyring_nil /\ rec.armor_start /\ ~stillValid) => (~o.ok /\ handed = <<>>),
             "clearsigned input was accepted without a valid signature by a keyring key">>,
           <<(~rec.keyring_nil /\ rec.armor_start /\ handed # <<>>) =>
-                (o.signer = rec.signed_by /\ ref.wf /\ Len(handed) <= Len(ref.paras) /\
-                 ParasMatch(handed, SubSeq(ref.paras, 1, Len(handed)))),
+                (o.signer = rec.signed_by /\ goodRef.wf /\ Len(handed) <= Len(goodRef.paras) /\
+                 ParasMatch(handed, SubSeq(goodRef.paras, 1, Len(handed)))),
             "paragraphs returned are not those of the signed text">>,
           <<(~rec.keyring_nil /\ ~rec.armor_start /\ isSigned) => ~rec.foreign_in_next,
             "unsigned text placed before the armor reaches the caller although a keyring was supplied">>,
@@ -43,7 +47,12 @@ Judge(rec) ==
           <<class = "plain" => (o.ok /\ o.signer = "none" /\ ref.wf /\ ParasMatch(o.paras, ref.paras)),
             "plain document not read faithfully / signer reported for unsigned input">>,
           <<~rec.slice.panic /\ rec.slice.ok = o.ok /\ (o.ok => rec.slice.n = Len(o.paras)),
-            "decoding the same bytes into a slice of structs succeeds / fails differently from reading all paragraphs">> >>)
+            "decoding the same bytes into a slice of structs succeeds / fails differently from reading all paragraphs">>,
+          <<~rec.all.panic /\ rec.all.ok = o.ok /\ (o.ok => rec.all.n = Len(o.paras)),
+            "reading all paragraphs at once succeeds / fails differently from reading them one by one">>,
+          <<(o.ok /\ rec.slice.ok) => rec.slice.signer = o.signer, "the Decoder reports another signer than the paragraph reader on the same input">>,
+          <<(faulty /\ ~rec.keyring_nil) => (~rec.foreign_in_next /\ ~rec.all.foreign),
+            "after a read error of the source, text that no signature covers reaches the caller although a keyring was supplied">> >>)
 
 \* ---- several signature packets in the armored signature --------------------------------------------------
 \* the document may be accepted only if ONE of the packets is a signature by a keyring key over the signed text
